@@ -635,9 +635,13 @@ theorem C18_status_seq (k : MinterKind) (s0 : Status) (l : List (Bool × Bool ×
 params. First: what `w.params` is after an arbitrary history; then, per operation, which current parameter decides. -/
 
 theorem step_params_other (e : Env) (w w' : World) (op : Op) (ms : List Msg) (h : step e w op = .ok (w', ms))
-    (hop : ∀ u, op ≠ .upd u) : w'.params = w.params := by
+    (hop : ∀ u, op ≠ .upd u) (hmig : ∀ u, op ≠ .mig (some u)) : w'.params = w.params := by
   cases op with
   | upd u => exact absurd rfl (hop u)
+  | mig ou =>
+    cases ou with
+    | none => simp only [step, pure, Except.pure] at h; cases h; rfl
+    | some u => exact absurd rfl (hmig u)
   | _ =>
     simp only [step, bind, Except.bind, pure, Except.pure, throw, throwThe, MonadExceptOf.throw] at h
     repeat' split at h
@@ -647,20 +651,27 @@ theorem step_params_other (e : Env) (w w' : World) (op : Op) (ms : List Msg) (h 
 theorem step'_params (e : Env) (w : World) (op : Op) :
     (step' e w op).params = match op with
       | .upd u => applyUpd Params.sudo w.params u
+      | .mig (some u) => applyUpd Params.sudo w.params u
       | _ => w.params := by
   cases op
   case upd u =>
     simp only [step', step, applyUpd, bind, Except.bind, pure, Except.pure]
     cases h : w.params.sudo u <;> simp
+  case mig ou =>
+    cases ou with
+    | none => simp [step', step, pure, Except.pure]
+    | some u =>
+      simp only [step', step, applyUpd, bind, Except.bind, pure, Except.pure]
+      cases h : w.params.sudo u <;> simp
   all_goals
     simp only [step']
     split
-    · rename_i w' ms h; exact step_params_other e w w' _ ms h (by intro u; simp)
+    · rename_i w' ms h; exact step_params_other e w w' _ ms h (by intro u; simp) (by intro u; simp)
     · rfl
 
-/-- Over ALL operation histories (any interleaving of updates, creations, mints, airdrops, shuffles, admin calls and
-status updates, accepted or refused): the factory params are exactly the fold of the governance updates in the history —
-nothing else writes them. -/
+/-- Over ALL operation histories (any interleaving of updates — by `sudo` or through `migrate` —, creations, mints,
+airdrops, shuffles, admin calls and status updates, accepted or refused): the factory params are exactly the fold of the
+governance updates in the history — nothing else writes them. -/
 theorem C18_observed_params_history (e : Env) (ops : List Op) (w : World) :
     (run e w ops).params = runUpd Params.sudo w.params (updatesOf ops) := by
   induction ops generalizing w with
@@ -668,7 +679,9 @@ theorem C18_observed_params_history (e : Env) (ops : List Op) (w : World) :
   | cons op t ih =>
     simp only [run, List.foldl_cons] at ih ⊢
     rw [ih (step' e w op), step'_params]
-    cases op <;> simp [updatesOf, runUpd]
+    cases op with
+    | mig ou => cases ou <;> simp [updatesOf, runUpd]
+    | _ => simp [updatesOf, runUpd]
 
 /-- `C18_observed_later`: whatever happened before (`ops`), the next operation `op` is decided by the params obtained
 by folding all governance updates submitted so far — i.e. it observes every accepted update, immediately. -/
@@ -1085,6 +1098,337 @@ theorem C18_captured_oe_cap (e : Env) (q : OeParams) (a : CreateArgs) (r : Minte
   repeat' split at h
   all_goals first | cases h | skip
   all_goals simp_all
+
+/-! ## 6b. Round 3: migrate path, witnessed updates, history-level observation, status frame, whitelist -/
+
+/-- every factory's `migrate(Some(msg))` is the same function of the params as `sudo UpdateParams(msg)`; `migrate(None)`
+changes nothing -/
+theorem C18_mig_same_as_sudo (e : Env) (w : World) (u : AnyUpd) :
+    step e w (.mig (some u)) = step e w (.upd u) ∧ step e w (.mig none) = .ok (w, []) := ⟨rfl, rfl⟩
+
+/-- the witnessed update the driver runs (`updW`): when the update is applied it is an accepted `sudo` (so
+`C18_params_frame` describes the new params); in every other case the params are exactly the old ones. -/
+theorem C18_updW_frame (P : Params) (u : AnyUpd) (acc : Bool) :
+    ((updW P u acc).2 = .applied → P.sudo u = .ok (updW P u acc).1 ∧ acc = true) ∧
+    ((updW P u acc).2 ≠ .applied → (updW P u acc).1 = P) := by
+  unfold updW
+  cases h : P.sudo u <;> cases acc <;> simp
+
+/-- the witness is CHECKED: when the implementation's verdict is the model's, `updW` is the plain transactional update -/
+theorem C18_updW_agrees (P : Params) (u : AnyUpd) :
+    (updW P u (P.sudo u).toBool).1 = applyUpd Params.sudo P u ∧
+    (updW P u (P.sudo u).toBool).2 = (if (P.sudo u).toBool then .applied else .refused) := by
+  unfold updW applyUpd
+  cases h : P.sudo u <;> simp [Except.toBool]
+
+/-- "an update that would move the minimum mint price to a non-native denom is refused", for the witnessed update: if the
+implementation ACCEPTS such an update the driver answers `err` against its `ok` (verdict `acceptedByCodeOnly`), it is never
+`applied` and never waved through as drift; the model's params stay as they were. -/
+theorem C18_updW_nonnative (P : Params) (u : AnyUpd) (c : Coin) (hc : c.denom ≠ NATIVE)
+    (hu : u.minMintPrice = some c) (hP : P.minMintPrice ≠ none) (acc : Bool) :
+    updW P u acc = (P, if acc then .acceptedByCodeOnly else .refused) := by
+  obtain ⟨⟨e, he⟩, _⟩ := C18_nonnative_refused_any P u c hc hu hP
+  simp [updW, he]
+
+/-- a refusal that only the implementation has (hardening outside this property) is never counted as agreement on a
+non-native minimum price: `refusedByCodeOnly` only arises when the model accepts the message -/
+theorem C18_updW_drift_only_when_model_accepts (P : Params) (u : AnyUpd) (acc : Bool)
+    (h : (updW P u acc).2 = .refusedByCodeOnly) : acc = false ∧ ∃ P', P.sudo u = .ok P' := by
+  unfold updW at h
+  cases hs : P.sudo u with
+  | error x => cases acc <;> simp [hs] at h
+  | ok P' => cases acc <;> simp [hs] at h; exact ⟨rfl, P', rfl⟩
+
+/-- Literal reading "the allowed code ids are a SET (no duplicates)": contradicted by the code (`Vec::dedup` removes only
+consecutive repeats). Full statement that does NOT hold: `∀ allowed add rm, allowed.Nodup → (applyIds allowed add rm).Nodup`.
+What holds is the set-level meaning, `C18_ids_set` (membership). Replayed on the real factories by the directed harness
+scenario `upd add=<sg0>,<sg0>` / `qids` (answer `ids=…,sg1,sg0` after `rm=sg0`, `add=sg0,sg0`) and corpus case
+`corpus/C18/ids-duplicate.txt`. -/
+theorem C18_ids_nodup_counterexample :
+    ¬ (∀ (allowed : List Nat) (add rm : Option (List Nat)), allowed.Nodup → (applyIds allowed add rm).Nodup) := by
+  intro h
+  have := h [1, 2] (some [1]) none (by decide)
+  revert this
+  decide
+
+/-! ### history-level "observe": an operation that succeeds after ANY history succeeds against the folded params -/
+
+theorem step_create_ok (e : Env) (w w' : World) (slot : Nat) (a : CreateArgs) (ms : List Msg)
+    (h : step e w (.create slot a) = .ok (w', ms)) : ∃ r ms0, create e w.params a = .ok (r, ms0) ∧ w' = w.setMinter slot r := by
+  simp only [step] at h
+  obtain ⟨⟨r, ms0⟩, hc, h⟩ := bind_ok h
+  obtain ⟨ms1, _, h⟩ := bind_ok h
+  exact ⟨r, ms0, hc, ((Prod.mk.inj (Except.ok.inj h)).1).symm⟩
+
+/-- after ANY history `ops` (updates by sudo or migrate, accepted or refused, interleaved with anything else), a creation
+that succeeds is a successful creation against the fold of the governance updates submitted so far — so
+`C18_observed_create` applies to exactly those params (frozen, allowed ids, fee, maxima, minimum price, offset, code id). -/
+theorem C18_observed_create_history (e : Env) (w w' : World) (ops : List Op) (slot : Nat) (a : CreateArgs) (ms : List Msg)
+    (h : step e (run e w ops) (.create slot a) = .ok (w', ms)) :
+    ∃ r ms0, create e (runUpd Params.sudo w.params (updatesOf ops)) a = .ok (r, ms0) := by
+  obtain ⟨r, ms0, hc, _⟩ := step_create_ok _ _ _ _ _ _ h
+  rw [C18_observed_params_history] at hc
+  exact ⟨r, ms0, hc⟩
+
+theorem step_mint_ok (e : Env) (w w' : World) (slot now : Nat) (funds : List Coin) (ms : List Msg)
+    (h : step e w (.mint slot now funds) = .ok (w', ms)) :
+    ∃ r r' ms0, w.minter slot = some r ∧ mint w.params r now funds = .ok (r', ms0) := by
+  simp only [step] at h
+  cases hr : w.minter slot with
+  | none => rw [hr] at h; cases h
+  | some r =>
+    rw [hr] at h
+    obtain ⟨⟨r', ms0⟩, hc, _⟩ := bind_ok h
+    exact ⟨r, r', ms0, rfl, hc⟩
+
+/-- after ANY history, a mint that succeeds is a successful mint against the fold of the governance updates so far — so
+`C18_observed_mint` / `_mint_base` name the CURRENT `mint_fee_bps` (and developer address) of exactly those params -/
+theorem C18_observed_mint_history (e : Env) (w w' : World) (ops : List Op) (slot now : Nat) (funds : List Coin) (ms : List Msg)
+    (h : step e (run e w ops) (.mint slot now funds) = .ok (w', ms)) :
+    ∃ r r' ms0, (run e w ops).minter slot = some r ∧
+      mint (runUpd Params.sudo w.params (updatesOf ops)) r now funds = .ok (r', ms0) := by
+  obtain ⟨r, r', ms0, hm, hc⟩ := step_mint_ok _ _ _ _ _ _ _ h
+  rw [C18_observed_params_history] at hc
+  exact ⟨r, r', ms0, hm, hc⟩
+
+/-- `SetWhitelist` is accepted only when the whitelist's price is at least the factory's CURRENT minimum mint price, in its
+denom -/
+theorem C18_observed_whitelist (P : Params) (r : MinterRec) (now : Nat) (wlp : Coin) (h : setWl P r now wlp = .ok ()) :
+    ∃ m, P.minMintPrice = some m ∧ m.amount ≤ wlp.amount ∧ m.denom = wlp.denom := by
+  simp only [setWl, bind, Except.bind, pure, Except.pure, throw, throwThe, MonadExceptOf.throw] at h
+  repeat' split at h
+  all_goals first | cases h | skip
+  all_goals simp_all
+  all_goals omega
+
+/-! ### status: nothing but `UpdateStatus` on that minter (and its creation) touches a minter's flags -/
+
+def statusOf (w : World) (s : Nat) : Option Status := (w.minter s).map (·.status)
+
+theorem mint_status (P : Params) (r r' : MinterRec) (now : Nat) (funds : List Coin) (ms : List Msg)
+    (h : mint P r now funds = .ok (r', ms)) : r'.status = r.status ∧ r'.kind = r.kind := by
+  by_cases hk : r.kind = .base
+  · obtain ⟨_, _, _, hr⟩ := C18_observed_mint_base P r r' now funds ms h hk
+    rw [hr]; exact ⟨rfl, rfl⟩
+  · unfold mint at h
+    rw [if_neg hk] at h
+    by_cases htm : r.kind = .tokenMerge
+    · rw [if_pos htm] at h; cases h
+    rw [if_neg htm] at h
+    cases hb : P.mintFeeBps with
+    | none => rw [hb] at h; cases h
+    | some b =>
+      rw [hb] at h
+      dsimp only at h
+      by_cases h1 : now < r.start
+      · rw [if_pos h1] at h; exact absurd h throw_bind_ne
+      rw [if_neg h1] at h
+      by_cases h2 : r.mintable = some 0
+      · rw [if_pos h2] at h; exact absurd h throw_bind_ne
+      rw [if_neg h2] at h
+      obtain ⟨pay, _, h⟩ := bind_ok h
+      by_cases h3 : (pay != r.price.amount) = true
+      · rw [if_pos h3] at h; exact absurd h throw_bind_ne
+      rw [if_neg h3] at h
+      obtain ⟨m, _, h⟩ := bind_ok h
+      have := (Prod.mk.inj (Except.ok.inj h)).1
+      rw [← this]; exact ⟨rfl, rfl⟩
+
+theorem airdrop_status (P : Params) (r r' : MinterRec) (funds : List Coin) (ms : List Msg)
+    (h : airdrop P r funds = .ok (r', ms)) : r'.status = r.status ∧ r'.kind = r.kind := by
+  unfold airdrop at h
+  by_cases hk : r.kind = .base
+  · rw [if_pos hk] at h; exact absurd h throw_bind_ne
+  rw [if_neg hk] at h
+  try dsimp only at h
+  cases hp : P.airdropPrice with
+  | none => rw [hp] at h; cases h
+  | some price =>
+    rw [hp] at h
+    try dsimp only at h
+    cases hb : P.airdropBps with
+    | none => rw [hb] at h; cases h
+    | some b =>
+      rw [hb] at h
+      try dsimp only at h
+      by_cases h2 : r.mintable = some 0
+      · rw [if_pos h2] at h; exact absurd h throw_bind_ne
+      rw [if_neg h2] at h
+      by_cases h4 : (r.kind.isOe && decide (price.amount = 0) && r.numTokens.isNone) = true
+      · rw [if_pos h4] at h; exact absurd h throw_bind_ne
+      rw [if_neg h4] at h
+      obtain ⟨pay, _, h⟩ := bind_ok h
+      by_cases h3 : (pay != price.amount) = true
+      · rw [if_pos h3] at h; exact absurd h throw_bind_ne
+      rw [if_neg h3] at h
+      obtain ⟨m, _, h⟩ := bind_ok h
+      have := (Prod.mk.inj (Except.ok.inj h)).1
+      rw [← this]; exact ⟨rfl, rfl⟩
+
+theorem setPal_status (P : Params) (r r' : MinterRec) (limit : Nat) (h : setPal P r limit = .ok r') :
+    r'.status = r.status := by
+  simp only [setPal, bind, Except.bind, pure, Except.pure, throw, throwThe, MonadExceptOf.throw] at h
+  repeat' split at h
+  all_goals first | cases h | skip
+  all_goals rfl
+
+theorem setPrice_status (P : Params) (r r' : MinterRec) (now price : Nat) (h : setPrice P r now price = .ok r') :
+    r'.status = r.status := by
+  simp only [setPrice, bind, Except.bind, pure, Except.pure, throw, throwThe, MonadExceptOf.throw] at h
+  repeat' split at h
+  all_goals first | cases h | skip
+  all_goals rfl
+
+/-- writing minter `slot` with a record of unchanged status does not change anybody's status -/
+theorem statusOf_setMinter_same (w : World) (slot s : Nat) (r r' : MinterRec) (hr : w.minter slot = some r)
+    (hs : r'.status = r.status) : statusOf (w.setMinter slot r') s = statusOf w s := by
+  obtain ⟨h1, _, h3⟩ := minter_setMinter w slot r'
+  by_cases h : s = slot
+  · subst h; simp [statusOf, h1, hr, hs]
+  · simp [statusOf, h3 s h]
+
+/-- Frame: every operation other than `UpdateStatus` on minter `s` and a creation into slot `s` — updates (sudo or migrate),
+mints, airdrops, shuffles, admin calls, operations on OTHER minters, accepted or refused — leaves the status of minter `s`
+exactly as it was. -/
+theorem C18_status_frame (e : Env) (w : World) (op : Op) (s : Nat)
+    (h1 : ∀ v b x, op ≠ .status s v b x) (h2 : ∀ a, op ≠ .create s a) :
+    statusOf (step' e w op) s = statusOf w s := by
+  unfold step'
+  split
+  · rename_i w' ms h
+    cases op with
+    | upd u => simp [statusOf, World.minter, (C18_captured e w w' u ms h).1]
+    | mig ou =>
+      cases ou with
+      | none => simp only [step, pure, Except.pure] at h; cases h; rfl
+      | some u =>
+        have h' : step e w (.upd u) = .ok (w', ms) := h
+        simp [statusOf, World.minter, (C18_captured e w w' u ms h').1]
+    | create slot a =>
+      obtain ⟨r, ms0, _, hw⟩ := step_create_ok _ _ _ _ _ _ h
+      have hne : s ≠ slot := fun hs => h2 a (by rw [hs])
+      rw [hw]; simp [statusOf, (minter_setMinter w slot r).2.2 s hne]
+    | mint slot now funds =>
+      simp only [step] at h
+      cases hr : w.minter slot with
+      | none => rw [hr] at h; cases h
+      | some r =>
+        rw [hr] at h
+        obtain ⟨⟨r', ms0⟩, hc, h⟩ := bind_ok h
+        obtain ⟨ms1, _, h⟩ := bind_ok h
+        have hw := (Prod.mk.inj (Except.ok.inj h)).1
+        rw [← hw]; exact statusOf_setMinter_same w slot s r r' hr (mint_status _ _ _ _ _ _ hc).1
+    | airdrop slot funds =>
+      simp only [step] at h
+      cases hr : w.minter slot with
+      | none => rw [hr] at h; cases h
+      | some r =>
+        rw [hr] at h
+        obtain ⟨⟨r', ms0⟩, hc, h⟩ := bind_ok h
+        obtain ⟨ms1, _, h⟩ := bind_ok h
+        have hw := (Prod.mk.inj (Except.ok.inj h)).1
+        rw [← hw]; exact statusOf_setMinter_same w slot s r r' hr (airdrop_status _ _ _ _ _ hc).1
+    | setPal slot limit =>
+      simp only [step] at h
+      cases hr : w.minter slot with
+      | none => rw [hr] at h; cases h
+      | some r =>
+        rw [hr] at h
+        obtain ⟨r', hc, h⟩ := bind_ok h
+        have hw := (Prod.mk.inj (Except.ok.inj h)).1
+        rw [← hw]; exact statusOf_setMinter_same w slot s r r' hr (setPal_status _ _ _ _ hc)
+    | shuffle slot funds =>
+      simp only [step] at h
+      cases hr : w.minter slot with
+      | none => rw [hr] at h; cases h
+      | some r =>
+        rw [hr] at h
+        obtain ⟨m0, _, h⟩ := bind_ok h
+        obtain ⟨ms1, _, h⟩ := bind_ok h
+        have hw := (Prod.mk.inj (Except.ok.inj h)).1
+        rw [← hw]
+    | ustt slot now t =>
+      simp only [step] at h
+      cases hr : w.minter slot with
+      | none => rw [hr] at h; cases h
+      | some r =>
+        rw [hr] at h
+        obtain ⟨_, _, h⟩ := bind_ok h
+        have hw := (Prod.mk.inj (Except.ok.inj h)).1
+        rw [← hw]
+    | setPrice slot now price =>
+      simp only [step] at h
+      cases hr : w.minter slot with
+      | none => rw [hr] at h; cases h
+      | some r =>
+        rw [hr] at h
+        obtain ⟨r', hc, h⟩ := bind_ok h
+        have hw := (Prod.mk.inj (Except.ok.inj h)).1
+        rw [← hw]; exact statusOf_setMinter_same w slot s r r' hr (setPrice_status _ _ _ _ _ hc)
+    | status slot v b x =>
+      obtain ⟨r, hr, hw', _, hoth⟩ := C18_status_world e w w' slot v b x ms h
+      have hne : s ≠ slot := fun hs => h1 v b x (by rw [hs])
+      simp [statusOf, hoth s hne]
+    | setWl slot now wlp =>
+      simp only [step] at h
+      cases hr : w.minter slot with
+      | none => rw [hr] at h; cases h
+      | some r =>
+        rw [hr] at h
+        obtain ⟨_, _, h⟩ := bind_ok h
+        have hw := (Prod.mk.inj (Except.ok.inj h)).1
+        rw [← hw]
+  · rfl
+
+/-- the flags of the last `UpdateStatus` on minter `s` in a history, if any -/
+def lastFlags (s : Nat) : List Op → Option Status
+  | [] => none
+  | .status s' v b x :: t => (lastFlags s t).orElse (fun _ => if s' = s then some ⟨v, b, x⟩ else none)
+  | _ :: t => lastFlags s t
+
+/-- History-level status clause: once minter `s` exists, after ANY history that does not re-create slot `s` its `Status`
+is the triple of the LAST `UpdateStatus` addressed to it, or still what it was if there was none — whatever else happened
+in between (governance updates, mints, airdrops, admin calls, other minters' status updates, refused operations). -/
+theorem C18_status_history (e : Env) (s : Nat) (ops : List Op) (w : World) (r : MinterRec)
+    (hr : w.minter s = some r) (hc : ∀ a, Op.create s a ∉ ops) :
+    statusOf (run e w ops) s = some ((lastFlags s ops).getD r.status) := by
+  induction ops generalizing w r with
+  | nil => simp [run, statusOf, hr, lastFlags]
+  | cons op t ih =>
+    have hct : ∀ a, Op.create s a ∉ t := fun a hm => hc a (List.mem_cons_of_mem _ hm)
+    have hop : ∀ a, op ≠ .create s a := fun a hm => hc a (by rw [hm]; exact List.mem_cons_self)
+    simp only [run, List.foldl_cons]
+    by_cases hst : ∃ v b x, op = .status s v b x
+    · obtain ⟨v, b, x, rfl⟩ := hst
+      have hstep : step e w (.status s v b x) = .ok (w.setMinter s { r with status := ⟨v, b, x⟩ }, []) := by
+        simp [step, hr, updateStatus, bind, Except.bind, pure, Except.pure]
+      have hw : step' e w (.status s v b x) = w.setMinter s { r with status := ⟨v, b, x⟩ } := by
+        simp [step', hstep]
+      have hm := (minter_setMinter w s { r with status := ⟨v, b, x⟩ }).1
+      have := ih (step' e w (.status s v b x)) { r with status := ⟨v, b, x⟩ } (by rw [hw]; exact hm) hct
+      simp only [run] at this
+      rw [this]
+      simp only [lastFlags, if_true]
+      cases lastFlags s t <;> simp [Option.orElse]
+    · have hns : ∀ v b x, op ≠ .status s v b x := fun v b x h => hst ⟨v, b, x, h⟩
+      have hf := C18_status_frame e w op s hns hop
+      have hsome : ∃ r', (step' e w op).minter s = some r' ∧ r'.status = r.status := by
+        simp only [statusOf, hr, Option.map_some] at hf
+        cases hm : (step' e w op).minter s with
+        | none => simp [hm] at hf
+        | some r' => simp [hm] at hf; exact ⟨r', rfl, hf⟩
+      obtain ⟨r', hr', hs'⟩ := hsome
+      have := ih (step' e w op) r' hr' hct
+      simp only [run] at this
+      rw [this, hs']
+      have hl : lastFlags s (op :: t) = lastFlags s t := by
+        cases op with
+        | status s' v b x =>
+          have hne : s' ≠ s := fun h => hns v b x (by rw [h])
+          simp only [lastFlags, if_neg hne]
+          cases lastFlags s t <;> simp [Option.orElse]
+        | _ => rfl
+      rw [hl]
 
 /-! ## 7. Non-vacuity: the hypotheses of the implication-shaped theorems are satisfiable, on concrete data
 (the `mint` / `create` hypotheses are exercised on the real contracts by the harness: thousands of accepted mints) -/
